@@ -47,6 +47,9 @@ def run(tier, seed, only=None):
     from checks import h_c35
     specs = [dict(module='checks.h_c35', fn=f, cond_timeout=T, path_timeout=T / 2, setup='setup')
              for f in h_c35.E_HARNESSES + h_c35.K_HARNESSES]
+    # a nested `with db_session(serializable=True)` must be refused unless the outer session is serializable (harness of C18's module:
+    # it needs the transactional connection model there)
+    specs.append(dict(module='checks.h_c18', fn='nested_serializable_refusal', cond_timeout=T, path_timeout=T / 2, setup='setup'))
     if only: specs = [s for s in specs if only in s['fn']]
     thorough = tier == 'thorough'
     rep.bounds = {
